@@ -46,11 +46,11 @@ type labelSimplifier struct {
 func (s *labelSimplifier) markReferences(n ast.Node) bool {
 	switch x := n.(type) {
 	case *ast.File:
-		s.processDecls(x.Decls)
+		s.processDecls(x.Decls, true)
 		return false
 
 	case *ast.StructLit:
-		s.processDecls(x.Elts)
+		s.processDecls(x.Elts, false)
 		return false
 
 	case *ast.SelectorExpr:
@@ -76,7 +76,8 @@ func (s *labelSimplifier) markReferences(n ast.Node) bool {
 }
 
 // processDecls runs the three sub-passes we apply to one body.
-func (s *labelSimplifier) processDecls(decls []ast.Decl) {
+// fileLevel reports whether decls are the declarations of a file.
+func (s *labelSimplifier) processDecls(decls []ast.Decl, fileLevel bool) {
 	sc := &labelSimplifier{parent: s, scope: map[string]bool{}}
 
 	// Sub-pass 1: collect candidates from labels.
@@ -114,9 +115,20 @@ func (s *labelSimplifier) processDecls(decls []ast.Decl) {
 		if !sc.scope[str] {
 			continue
 		}
+		if fileLevel && isFileKeyword(str) {
+			continue
+		}
 		f.Label = ast.NewIdent(str)
 		s.changed = true
 	}
+}
+
+// isFileKeyword reports whether the parser reads name, when it starts a
+// declaration at the top level of a file, as the start of a package clause
+// or an import declaration rather than as a field label. Such a label must
+// stay quoted there; inside a struct it is an ordinary identifier.
+func isFileKeyword(name string) bool {
+	return name == "package" || name == "import"
 }
 
 // markStrings walks a label subtree, recording every unquotable string
